@@ -1,8 +1,4 @@
 use crate::runner::SubCheck;
-pub mod c01;
-pub mod c02;
-pub mod c03;
-pub mod c14;
 
 pub struct PropDef {
     pub id: &'static str,
@@ -11,16 +7,14 @@ pub struct PropDef {
     pub subs: Vec<SubCheck>,
 }
 
-pub fn all_ids() -> Vec<&'static str> {
-    vec!["C01", "C02", "C03", "C14"]
+macro_rules! props {
+    ($(($id:literal, $m:ident)),* $(,)?) => {
+        $(pub mod $m;)*
+        pub fn all_ids() -> Vec<&'static str> { vec![$($id),*] }
+        pub fn get(id: &str) -> Option<PropDef> {
+            match id { $($id => Some($m::def()),)* _ => None }
+        }
+    };
 }
 
-pub fn get(id: &str) -> Option<PropDef> {
-    match id {
-        "C01" => Some(c01::def()),
-        "C14" => Some(c14::def()),
-        "C02" => Some(c02::def()),
-        "C03" => Some(c03::def()),
-        _ => None,
-    }
-}
+props!(("C01", c01), ("C02", c02), ("C03", c03), ("C04", c04), ("C08", c08), ("C14", c14));
